@@ -51,13 +51,16 @@ Export == (Len(text) >= fam.exportmin /\ Shape(fam, text) /\ res.st # "uncertain
 
 (* spec-level sanity, checked by TLC in every state:
    Sane       an accepted string literal yields at most 4 bytes per source character, all in
-              0..255; an accepted integer token has canonical digits (no leading zero)
+              0..255; an accepted integer token has canonical digits (no leading zero); a
+              numeric text with a Go-ism ('_', 0b, 0o, hex float) is rejected
    SaneDelim  reading does not depend on which delimiter is used when the body has no quote *)
 Sane ==
     IF fam.mode = "str"
     THEN res.st = "ok" => /\ Len(res.bytes) <= 4 * Len(text)
                           /\ \A i \in 1..Len(res.bytes) : res.bytes[i] \in 0..255
-    ELSE (res.st = "ok" /\ res.kind = "int") => (res.digits = <<>> \/ res.digits[1] # 0)
+    ELSE /\ (res.st = "ok" /\ res.kind = "int") => (res.digits = <<>> \/ res.digits[1] # 0)
+         /\ LET body == IF text # <<>> /\ text[1] = 45 THEN Tail(text) ELSE text
+            IN GoIsms(body) # {} => res.st = "reject"      \* Go-isms are rejected, with certainty
 SaneDelim ==
     (fam.mode = "str" /\ \A i \in 1..Len(text) : text[i] \notin {DQ, SQ}) =>
         LET o == Decode(text, IF fam.q = DQ THEN SQ ELSE DQ)
